@@ -220,6 +220,20 @@ func (n *Normalizer) stmts(ss []Stmt, ret Term, e *env, blk *Block) Term {
 				}
 			default:
 				any := false
+				uses := 0
+				for _, vr := range x.Vars {
+					if vr != nil {
+						uses += n.uses[vr]
+					}
+				}
+				_, isTup := v.(*Tuple)
+				_, isMR := v.(*MultiRet)
+				if n.KeepShared && uses > 1 && hasApp(v) && !isTup && !isMR {
+					// keep the tuple-valued call as one cell
+					cell := types.NewVar(x.Pos(), nil, "_t", nil)
+					effs = append(effs, &AssignT{LHS: &Local{Obj: cell}, RHS: v, Op: ":="})
+					v = &Local{Obj: cell}
+				}
 				for j, vr := range x.Vars {
 					if vr != nil {
 						any = true
